@@ -78,7 +78,7 @@ def crash_faults(pid, tier, seed):
     except Exception:
         res["undecided"].append({"function": "contracts/crash_replay.py", "obligation": "fault enumeration", "reason": "harness produced no result: " + (p.stderr or p.stdout)[-400:]})
         return res
-    bound = "one memoization of one dict result by one function (plus a second function with the same content after the fault); %d mutating primitives; %d (primitive, outcome) faults; " \
+    bound = "one memoization of one dict result by one function, on an empty store and after a second function with the same content was memoized; %d mutating primitives in all; %d (primitive, outcome) faults; " \
             "outcomes: crash after open, crash / error at write and close with nothing / half / all of the pending data on disk, crash after / error at replace and makedirs" % (len(d["primitives"]), d["faults_tried"])
     res["bounded_standins"] = [{"what": "fault-injection run of the real code (labelled bounded, not counted as proved)", "bound": bound,
                                 "result": "no violating fault" if not d["violating"] else "%d violating faults" % len(d["violating"])}]
